@@ -727,6 +727,55 @@ class Compiler:
             return json.dumps({str(vs[i]): _json_val(vs[i + 1]) for i in range(0, len(vs), 2)})
         return f
 
+    def f_JSON_QUOTE(self, a):
+        return lambda ctx: (None if (v := a[0](ctx)) is None else json.dumps(str(v)))
+
+    def f_JSON_CONTAINS(self, a):
+        def contains(target, cand):
+            if isinstance(target, list):
+                if isinstance(cand, list):
+                    return all(contains(target, c) for c in cand)
+                return any(contains(t, cand) for t in target)
+            if isinstance(target, dict):
+                return isinstance(cand, dict) and all(k in target and contains(target[k], v) for k, v in cand.items())
+            return target == cand
+
+        def f(ctx):
+            t, c = a[0](ctx), a[1](ctx)
+            if t is None or c is None:
+                return None
+            try:
+                return int(contains(json.loads(t) if isinstance(t, str) else t, json.loads(c) if isinstance(c, str) else c))
+            except ValueError:
+                raise OperationalError(3141, 'Invalid JSON text in argument to function json_contains')
+        return f
+
+    def f_JSON_EXTRACT(self, a):
+        def f(ctx):
+            doc, path = a[0](ctx), a[1](ctx)
+            if doc is None or path is None:
+                return None
+            try:
+                v = json.loads(doc) if isinstance(doc, str) else doc
+            except ValueError:
+                raise OperationalError(3141, 'Invalid JSON text in argument to function json_extract')
+            for m in re.finditer(r'\[(\d+)\]|\."?([A-Za-z_][A-Za-z0-9_]*)"?', path[1:] if path.startswith('$') else path):
+                if m.group(1) is not None:
+                    i = int(m.group(1))
+                    if not isinstance(v, list):
+                        v = [v]  # MySQL autowraps a scalar/object as a one-element array for [0]
+                    if i >= len(v):
+                        return None
+                    v = v[i]
+                else:
+                    if not isinstance(v, dict) or m.group(2) not in v:
+                        return None
+                    v = v[m.group(2)]
+            if v is None:
+                return 'null'  # JSON null literal, which IS NOT NULL in SQL
+            return v if isinstance(v, (int, float)) and not isinstance(v, bool) else json.dumps(v)
+        return f
+
     # ---- aggregates ------------------------------------------------------------------------
     def aggregate(self, node, scope, aa):
         name, args, distinct, star = node[1], node[2], node[3], node[4]
